@@ -75,7 +75,7 @@ claim("C14", "E3", "model_checking",
       "inputs outside the mutation alphabet and concurrent hostile clients are not explored; proxy framing only in the thorough tier", "3/C14")
 claim("C18", "E3", "model_checking",
       "explicit enumeration of authentication histories with token passwords against a recording logger (information-flow oracle on every log call)",
-      "Four configurations (scopes sharing a keychain entry, unassigned scope, unknown handler/provider types, duplicate user) are loaded and reloaded over each other with the loader's own log calls searched; the C10 histories and the full START product (first sequence number 1, 3, 255) are replayed with every password and shared secret replaced by a unique token; after every packet no watched token may occur in a formatted message, an unobscured record value, a field selected for retention, or a logged reply.",
+      "Four configurations (scopes sharing a keychain entry, unassigned scope, unknown handler/provider types, duplicate user) are loaded and reloaded over each other with the loader's own log calls searched; the C10 histories and the full START product (first sequence number 1, 3, 255) are replayed with every password and shared secret replaced by a unique token; after every packet no watched token may occur in a formatted message, an unobscured record value, a field selected for retention, a logged reply, or the bytes written by the repository's own logger (cmds/server/log at debug level), to which every call is forwarded.",
       "substring search for tokens; the logger seam is the handlers' loggerProvider interface", "3/C18")
 claim("C16", "E1", "exploration",
       "bounded-exhaustive enumeration of load histories on one loader object with a differential oracle (fresh loader) and snapshot immutability",
